@@ -70,6 +70,15 @@ class ReproCheck:
             w = worldgen.gen_world(seed, idx, "clockwork", small_burst=True, flags=fl)
             w["meta"]["source"] = "batching_planner"
             return w
+        if idx % 16 == 2:
+            # a LARGE workload: every application replicated ten times (30 job graphs and more, several invocations each,
+            # deadline variance), as the trace-replay experiments have them
+            w = worldgen.gen_world(seed, idx, "greedy", flags={"scheduler_frequency": -1, "replication_factor": 10, "workload_update_interval": -1},
+                                   max_graphs=3, max_invocations=4, max_nodes=5, allow_cond=False, variances=[0],
+                                   release_policies=["fixed", "poisson"], deadline_variances=[(10, 100), (50, 200)])
+            w["flags"]["loop_timeout"] = min(w["flags"]["loop_timeout"], 3000)
+            w["meta"]["source"] = "many_graphs"
+            return w
         if idx % 8 == 1:
             w = worldgen.gen_world(seed, idx, "planner", flags={"scheduler_frequency": -1}, allow_cond=False, variances=[0])
             w["meta"]["source"] = "planner"
@@ -150,7 +159,7 @@ class ReproCheck:
         if len(compared) < (12 if tier == "quick" else 300):
             inconclusive.append(f"only {len(compared)} process pairs compared; errors: {errors[:2]}")
         for s in ("deadline_variance", "poisson", "gamma", "conditional", "runtime_variance", "clockwork", "clockwork_tied",
-                  "batching_planner", "planner"):
+                  "batching_planner", "planner", "many_graphs"):
             if per_source.get(s, 0) < 3:
                 inconclusive.append(f"randomness source {s} in {per_source.get(s, 0)} pairs")
         if errors:
